@@ -2184,8 +2184,13 @@ size_t ZSTD_decompressStream(ZSTD_DStream* zds, ZSTD_outBuffer* output, ZSTD_inB
                             ZSTD_getFrameHeader_advanced(&zds->fParams, zds->headerBuffer, zds->lhSize, zds->format),
                             "First few bytes detected incorrect" );
                         /* return hint input size */
-                        return (MAX((size_t)ZSTD_FRAMEHEADERSIZE_MIN(zds->format), hSize) - zds->lhSize) + ZSTD_blockHeaderSize;   /* remaining header bytes + next block header */
-                    }
+                        {   /* a skippable frame has no block : its user data may be shorter than a block header */
+                            int const isSkippable = (zds->format == ZSTD_f_zstd1)
+                                                 && (zds->lhSize >= ZSTD_FRAMEIDSIZE)
+                                                 && ((MEM_readLE32(zds->headerBuffer) & ZSTD_MAGIC_SKIPPABLE_MASK) == ZSTD_MAGIC_SKIPPABLE_START);
+                            size_t const nextBlockHeader = isSkippable ? 0 : ZSTD_blockHeaderSize;
+                            return (MAX((size_t)ZSTD_FRAMEHEADERSIZE_MIN(zds->format), hSize) - zds->lhSize) + nextBlockHeader;   /* remaining header bytes + next block header */
+                    }   }
                     assert(ip != NULL);
                     ZSTD_memcpy(zds->headerBuffer + zds->lhSize, ip, toLoad); zds->lhSize = hSize; ip += toLoad;
                     break;
